@@ -22,6 +22,7 @@ CPtsOk(e) == e.area2 = 0 /\ (Len(e.pts) > 0 => CentroidOk(e, PointsCentroid(e.pt
 CLineOk(e) == e.area2 = 0 /\ (SumSeq(e.lens, 1) > 0 => CentroidOk(e, LineCentroid(e.pts, e.lens)))
 \* a collection whose top dimension is dim (0: points, 1: one line with integer lengths plus points that do not count)
 CCollOk(e, FINDING) == /\ e.area2 = 0
+   /\ e.ro = 1                            \* what lies behind a member (spare capacity, the next line of a longer multi line) is untouched
    /\ IF FINDING THEN e.cx = 0 /\ e.cy = 0
       ELSE IF e.dim = 0 THEN CentroidOk(e, PointsCentroid(e.pts))
       ELSE (SumSeq(e.lens, 1) > 0 => CentroidOk(e, LineCentroid(e.line, e.lens)))
@@ -47,6 +48,11 @@ PathsBracket(ps, i) == IF i > Len(ps) THEN <<0, 0>> ELSE LET a == LenBracket(ps[
 LenOk(e) == LET br == PathsBracket(e.paths, 1) IN br[1] - 1 <= e.q /\ e.q <= br[2] + 1
 Ok(e, FINDING) == CASE e.k = "area" -> AreaOk(e) [] e.k = "cpts" -> CPtsOk(e) [] e.k = "cline" -> CLineOk(e)
                     [] e.k = "ccoll" -> CCollOk(e, FINDING)
+                    \* a staircase of n vertices one unit apart measures n - 1 (in hundredths), whatever holds it
+                    [] e.k = "lenbig" -> e.q = 100 * (e.n - 1)
+                    \* a small ring moved far away by an exact translation keeps its area to a relative 1e-9 (units of 1e-12); Area and
+                    \* CentroidArea, ring / polygon / multipolygon agree
+                    [] e.k = "areafar" -> \A j \in 1..Len(e.rel) : e.rel[j] <= 1000
                     [] e.k = "seg" -> SegOk(e) [] e.k = "dist" -> DistOk(e) [] e.k = "distidx" -> DistIdxOk(e) [] e.k = "len" -> LenOk(e) [] OTHER -> FALSE
 Init == l = 1 /\ bad = {} /\ alt = {}
 Next == /\ l <= Len(Trace) /\ l' = l + 1
